@@ -1,6 +1,6 @@
 (* Props/C12.v — property C12: the linker places sections correctly and preserves their contents.
    Only statements, [exact] of a lemma from Proofs/C12_linker.v (or a vm_compute witness), and
-   Print Assumptions. All theorems are about Model.Linker (hand model, tie H, compared with
+   the assumption audit. All theorems are about Model.Linker (hand model, tie H, compared with
    ppci.binutils.linker on every run by tools/props/c12.py).
 
    link_trace objs lay partial entry extra = Ok (out, ts):
@@ -176,6 +176,40 @@ Theorem c12_final_link_globals_defined :
   forall s, In s (o_syms out) -> is_global (y_bind s) = true -> y_value s <> None.
 Proof. exact link_trace_defined. Qed.
 Print Assumptions c12_final_link_globals_defined.
+
+(* a link that succeeds has no global defined twice (extra symbols, input objects, layout
+   SymbolDefinitions, in that order): duplicate definitions make the link fail *)
+Theorem c12_no_duplicate_definitions :
+  forall objs lay partial entry extra out ts,
+  link_trace objs lay partial entry extra = Ok (out, ts) ->
+  NoDup (all_defs objs lay partial extra).
+Proof. exact link_trace_no_duplicate_definitions. Qed.
+Print Assumptions c12_no_duplicate_definitions.
+
+(* step-level exactness of the three diagnostics *)
+Theorem c12_multiple_definition_exact :
+  forall syms n sc value typ size c,
+  merge_global_symbol syms n sc value typ size = Diag c <->
+  c = 1 /\ exists s v v0, find_global n syms = Some s /\ y_value s = Some v0 /\ value = Some v.
+Proof. exact merge_global_symbol_diag. Qed.
+Print Assumptions c12_multiple_definition_exact.
+
+Theorem c12_undefined_exact :
+  forall d,
+  (check_undefined_symbols d = Diag 5 <->
+   exists s, In s (o_syms d) /\ is_global (y_bind s) = true /\ y_value s = None) /\
+  (check_undefined_symbols d = Ok tt \/ check_undefined_symbols d = Diag 5).
+Proof. exact check_undefined_diag. Qed.
+Print Assumptions c12_undefined_exact.
+
+Theorem c12_memory_exceeded_exact :
+  forall d m d1 cur names data,
+  layout_inputs (d, m_loc m, []) (m_inputs m) = Ok (d1, cur, names) ->
+  image_data (o_sects d1) (mkImage (m_name m) (m_loc m) names) = Ok data ->
+  (layout_memory d m = Diag 4 <-> len data > m_size m) /\
+  (len data <= m_size m -> exists d', layout_memory d m = Ok d').
+Proof. exact layout_memory_size_check. Qed.
+Print Assumptions c12_memory_exceeded_exact.
 
 (* non-vacuity: a two-object link with a layout succeeds, satisfies the layout hypothesis, and the
    numbers are the expected ones *)
